@@ -103,6 +103,11 @@ void vf_clear_files(void);
 
 /* ---- the redirected imports (called by libbidib objects) --------------- */
 int vf_usleep(unsigned int us);
+/* Blocks the caller until ANOTHER thread releases `lock` (mutex or rwlock); the caller then runs first, i.e. at the
+ * release point, before the releasing thread goes on: a reader scheduled exactly where a half-finished update would be
+ * visible. Returns 0, or -1 after vf_cancel_release_waits() (and always in the free-running world). */
+int vf_wait_release(const void *lock);
+void vf_cancel_release_waits(void);
 time_t vf_time(time_t *t);
 int vf_clock_gettime(clockid_t c, struct timespec *ts);
 void vf_syslog(int prio, const char *fmt, ...);
